@@ -633,3 +633,214 @@ class WrapPart:
 
 
 WRAP = WrapPart()
+
+
+# ---------------------------------------------------------------------------------------------------------------------
+# NODEMISC: Node.path / get_children / is_system_root / __repr__, Tree.__eq__ / system_root / len / count / bool /
+#           first_child / last_child / __repr__ / get_random_node, TypedNode.__repr__
+# ---------------------------------------------------------------------------------------------------------------------
+import contextlib  # noqa: E402
+
+import build as B  # noqa: E402
+import nav_hist as NH  # noqa: E402
+import nutree.tree as _nutree_tree  # noqa: E402
+from common import ANY_KIND  # noqa: E402
+
+
+class MyTree(Tree):
+    """a subclass: __repr__ must print ITS class name"""
+
+
+class MyTypedTree(TypedTree):
+    pass
+
+
+TREE_CLASSES = {"Tree": Tree, "TypedTree": TypedTree, "MyTree": MyTree, "MyTypedTree": MyTypedTree}
+
+
+class StreamRandom:
+    """stands in for the module object `random` inside nutree.tree: choice(seq) = seq[next draw mod len(seq)]"""
+
+    def __init__(self, draws):
+        self.draws = list(draws)
+        self.calls = []
+
+    def choice(self, seq):
+        d = self.draws.pop(0)
+        self.calls.append(list(seq))
+        if not len(seq):
+            raise IndexError("Cannot choose from an empty sequence")
+        return seq[d % len(seq)]
+
+
+@contextlib.contextmanager
+def patched_random(stream):
+    old = _nutree_tree.random
+    _nutree_tree.random = stream
+    try:
+        yield stream
+    finally:
+        _nutree_tree.random = old
+
+
+def _err(fn):
+    try:
+        return fn()
+    except Exception as e:  # noqa: BLE001
+        return ("ERR", H.err_class(e), e)
+
+
+NM_UNIV = ["s:a", "s:it's", "s:q\"d", "s:back\\slash", "s:", "s:x y", "i:7", "i:-3", "e:1", "t:1,2", "s:tab\there", "s:both'\"", "p:4", "s:a"]
+NM_TREE_NAMES = ["T", "it's", "a\"b", "", "x\\y", "both'\""]
+
+
+class NodeMiscPart:
+    tag = "NODEMISC"
+    case_module = "CaseMiscNode"
+    case_vo = "theories/Cases/CaseMiscNode.vo"
+    run_fn = "run_misc_node"
+    rule = ("node/tree miscellany: every ordered forest with <= 4 nodes (5 thorough) + seeded random trees up to 10 nodes, plain and "
+            "typed, incl. the empty tree, trees reached through creation orders / histories (registry order differs from pre-order), "
+            "names and tree names with quotes, backslashes, control characters and the empty string, int / str / negative data_ids, "
+            "Tree subclasses; on the system root and every node: is_system_root, children, repr, path, get_children; Tree.__eq__/__ne__ "
+            "with 7 arguments, len/count/bool, first/last child, repr, system_root; get_random_node under a stream reader for the "
+            "draws 0..n+1, -1 and two large ones (every node must come exactly once for 0..n-1); oracle by pointer walks and identity")
+
+    def descs(self, tier, rng):
+        nmax = 4 if tier == "quick" else 5
+        yield dict(typed=False, univ=NM_UNIV, nodes=[], cls="Tree", name="T")
+        yield dict(typed=True, univ=NM_UNIV, nodes=[], cls="TypedTree", name="it's")
+        k = 0
+        for n in range(1, nmax + 1):
+            for shape in H.forests(n):
+                for typed in (False, True):
+                    k += 1
+                    nodes = B.shape_to_nodes(shape, lambda i, d, s, k=k: ((i * 5 + k) % len(NM_UNIV), ["a", "b b", "it's"][(i + k) % 3] if typed else None,
+                                                                        [None, f"id{i}", 100 + i, "it's", -5 - i][(i + k) % 5] if (i + k) % 2 else None))
+                    yield dict(typed=typed, univ=NM_UNIV, nodes=nodes, cls=("My" if k % 3 == 0 else "") + ("TypedTree" if typed else "Tree"),
+                               name=NM_TREE_NAMES[k % len(NM_TREE_NAMES)])
+        for j in range(80 if tier == "quick" else 600):
+            n = rng.randint(2, 10)
+            typed = rng.random() < 0.4
+            shape = H.random_shape(rng, n, deep=rng.choice([0.2, 0.5, 0.8]))
+            nodes = B.shape_to_nodes(shape, lambda i, d, s: (rng.randrange(len(NM_UNIV)), rng.choice(["a", "b b", "it's"]) if typed else None, f"id{i}"))
+            d = dict(typed=typed, univ=NM_UNIV, nodes=nodes)
+            if j % 2:
+                yield dict(d, order_seed=rng.randrange(10 ** 6), hist=NH.random_hist(rng, n, len(NM_UNIV), typed, rng.randint(0, 4)))
+            else:
+                yield dict(d, cls=rng.choice(["My", ""]) + ("TypedTree" if typed else "Tree"), name=rng.choice(NM_TREE_NAMES))
+
+    def shrink_candidates(self, desc):
+        if "hist" in desc:
+            yield from NH.shrink_hist(desc)
+        else:
+            for nodes in B.drop_one_node(desc["nodes"]):
+                yield dict(desc, nodes=nodes)
+
+    def run(self, desc) -> Case:
+        typed = bool(desc.get("typed"))
+        if "hist" in desc:
+            tree, U, _objs, _sh, _errors = NH.build_hist(desc)
+        else:
+            U = B.make_universe(desc["univ"])
+            tree = TREE_CLASSES[desc["cls"]](desc["name"])
+            B.add_nodes(tree._root, desc["nodes"], U, typed)
+        root = tree._root
+        nodes = B.all_nodes(root)
+        n = len(nodes)
+        fails = []
+
+        def ids(l):
+            return [H.nid(x) for x in l]
+
+        def txt(x):
+            return [-1, x[1]] if isinstance(x, tuple) and x and x[0] == "ERR" else x
+
+        ent_obs = []
+        for e in [tree.system_root] + nodes:
+            extra = []
+            if e is not root:
+                gc = _err(lambda: e.get_children(ANY_KIND) if typed else e.get_children())
+                extra = [txt(_err(lambda: e.path)), ids(gc) if isinstance(gc, list) else txt(gc)]
+                if not (isinstance(gc, list) and len(gc) == len(e._children or []) and all(a is b for a, b in zip(gc, e._children or []))):
+                    fails.append(f"get_children of node {H.nid(e)} is not its child list")
+                # path: "/" + "/".join(names up the _parent chain)
+                chain, p = [], e
+                while p._parent is not None:
+                    chain.append(f"{p._data}")
+                    p = p._parent
+                if extra[0] != "/" + "/".join(reversed(chain)):
+                    fails.append(f"path of node {H.nid(e)}: {extra[0]!r}")
+            isr = _err(lambda: e.is_system_root())
+            if isr is not (e is root):
+                fails.append(f"is_system_root() of {'the system root' if e is root else 'node %d' % H.nid(e)} answers {isr!r}")
+            r = _err(lambda: repr(e))
+            # the documented text, from the attributes
+            if typed:
+                want = f"{type(e).__name__}<kind={e._kind}, {e._data}, data_id={e._data_id!r}>"
+            else:
+                want = f"{type(e).__name__}<{str(e._data)!r}, data_id={e._data_id}>"
+            if r != want:
+                fails.append(f"repr: {r!r}, documented {want!r}")
+            ent_obs.append([txt(isr), ids(e.children), txt(r), extra])
+        if tree.system_root is not root or root._parent is not None:
+            fails.append("system_root is not the root object")
+        # ---- tree level
+        other = Tree("other")
+        eq_args = [None, tree, other, 0, "T", (nodes[0] if nodes else root), [tree]]
+        eq_obs = [-1, 5]
+        for a in eq_args:
+            for op, f in (("==", lambda: tree == a), ("!=", lambda: tree != a)):
+                x = _err(f)
+                if not (isinstance(x, tuple) and x[0] == "ERR" and isinstance(x[2], NotImplementedError)):
+                    fails.append(f"tree {op} {a!r} must raise NotImplementedError, got {x!r}")
+                    eq_obs = txt(x) if isinstance(x, tuple) else bool(x)
+        ln, cnt, bl = len(tree), tree.count, bool(tree)
+        if not (ln == cnt == n) or bl != (n > 0):
+            fails.append(f"len={ln} count={cnt} bool={bl} for a tree with {n} reachable nodes")
+        fc, lc = (tree.first_child(ANY_KIND), tree.last_child(ANY_KIND)) if typed else (tree.first_child(), tree.last_child())
+        tl = root._children or []
+        if fc is not (tl[0] if tl else None) or lc is not (tl[-1] if tl else None):
+            fails.append("Tree.first_child/last_child are not the ends of the top-level list")
+        tr = repr(tree)
+        if tr != f"{type(tree).__name__}<{tree.name!r}>":
+            fails.append(f"repr(tree): {tr}")
+        tree_obs = [eq_obs, ln, cnt, bl, [] if fc is None else [H.nid(fc)], [] if lc is None else [H.nid(lc)], tr]
+        # ---- get_random_node with `random` replaced by a stream reader
+        draws = list(range(n + 2)) + [-1, 10 ** 6 + 3, -(10 ** 9) - 7]
+        reg_nodes = list(tree._node_by_id.values())
+        rnd_obs = []
+        got = []
+        for d in draws:
+            with patched_random(StreamRandom([d])) as st:
+                x = _err(lambda: tree.get_random_node())
+            if isinstance(x, tuple):
+                rnd_obs.append([-1, x[1]])
+                if n > 0 or not isinstance(x[2], IndexError):
+                    fails.append(f"get_random_node raised {type(x[2]).__name__} on a tree with {n} nodes")
+            else:
+                rnd_obs.append(H.nid(x))
+                got.append(x)
+                if not any(x is y for y in nodes):
+                    fails.append("get_random_node returned an object that is not a node of the tree")
+                elif len(st.calls) != 1 or x is not reg_nodes[d % n]:
+                    fails.append(f"get_random_node with draw {d}: not the node at position {d % n} of the registry")
+        if n and sorted(H.nid(x) for x in got[:n]) != sorted(ids(nodes)):
+            fails.append("get_random_node: the draws 0..n-1 do not reach every node exactly once")
+        # the real random module: always a node of the tree / IndexError when empty
+        for _ in range(3):
+            x = _err(lambda: tree.get_random_node())
+            if n == 0:
+                if not (isinstance(x, tuple) and isinstance(x[2], IndexError)):
+                    fails.append("get_random_node on an empty tree must raise IndexError")
+            elif isinstance(x, tuple) or not any(x is y for y in nodes):
+                fails.append("get_random_node (real random) did not return a node of the tree")
+        names = [type(nodes[0]).__name__ if nodes else ("TypedNode" if typed else "Node"), type(root).__name__, type(tree).__name__, tree.name]
+        coq = (f"(MC {H.coq_forest(root, U)} {H.coq_list(H.z(H.nid(x)) for x in reg_nodes)} {H.coq_list(H.z(d) for d in draws)} "
+               f"{H.coq_bool(typed)} {H.coq_list(H.coq_text(s) for s in names)})")
+        return Case(desc=desc, coq_input=coq, impl_obs=[ent_obs, tree_obs, rnd_obs], oracle_fail=("misc: " + fails[0]) if fails else None,
+                    nontrivial=n >= 1, key=H.digest(desc),
+                    stats=dict(nodes=n, reg_is_preorder=ids(reg_nodes) == ids(nodes), typed=typed))
+
+
+NODEMISC = NodeMiscPart()
